@@ -571,6 +571,9 @@ def defaults_run(kind, envname, term_at, form):
                                            and brk.happened)
     if form == 'empty':
         opts = {}
+    elif form == 'none-valued':
+        # documented defaults spelled out as None where None is the default
+        opts = {'role': None} if kind == 'llcp' else {}
     else:
         # one documented default spelled out
         name = {'rdwr': 'on-connect', 'llcp': 'on-connect',
@@ -616,8 +619,14 @@ def defaults_case(case):
     kind, envname, term_at = case
     a = defaults_run(kind, envname, term_at, 'empty')
     b = defaults_run(kind, envname, term_at, 'spelled')
-    if a == b:
+    c = defaults_run(kind, envname, term_at, 'none-valued')
+    if a == b == c:
         return [], ('defaults', kind, envname, a[0])
+    if a == b:
+        return [('defaults|%s={role: None}|differs-from-empty-dict' % kind,
+                 dict(kind=kind, env=envname, terminate_at=term_at,
+                      with_empty_dict=repr(a), with_role_none=repr(c)))
+                ], ('defaults', kind, envname, 'differs')
     return [('defaults|%s={}|differs-from-spelled-out-default' % kind,
              dict(kind=kind, env=envname, terminate_at=term_at,
                   with_empty_dict=repr(a), with_default_spelled_out=repr(b)))
